@@ -53,13 +53,13 @@ theorem agree_forRound {k r : Nat} {c c' : Container} (h : AgreeFrom k c c') (hr
 
 /-- messages strictly above a round (the input of `hasReceivedPartialQuorum`) -/
 theorem agree_above {k r : Nat} {c c' : Container} (h : AgreeFrom k c c') (hr : k ≤ r + 1) :
-    c'.filter (fun x => decide (x.round > r)) = c.filter (fun x => decide (x.round > r)) := by
-  have e : ∀ d : Container, (trimFrom k d).filter (fun x => decide (x.round > r)) = d.filter (fun x => decide (x.round > r)) := by
+    c'.filter (fun x => Nat.blt r x.round) = c.filter (fun x => Nat.blt r x.round) := by
+  have e : ∀ d : Container, (trimFrom k d).filter (fun x => Nat.blt r x.round) = d.filter (fun x => Nat.blt r x.round) := by
     intro d
     unfold trimFrom
     apply filter_filter_of_imp
     intro a ha
-    simp at ha ⊢
+    simp [Nat.blt_eq] at ha ⊢
     omega
   rw [← e c, ← e c', h]
 
@@ -257,5 +257,192 @@ theorem uponRoundTimeout_sim (cfg : Cfg) {s s' : State} (h : Sim s s') (hwf : WF
     cases wrap Atom.bcastRoundChangeFailed (broadcast cfg s (createRoundChange cfg s (s.round + 1))) with
     | ok o => exact okStep_sim hS hw _
     | error f => exact failStep_sim hS hw _ f
+
+theorem isPJFLR_withC (cfg : Cfg) (s : State) (P Pr C RC : Container) (rcMsg : Msg) (rcs : List Msg) (v r : Nat) :
+    isProposalJustificationForLeadingRound cfg (withC s P Pr C RC) rcMsg rcs v r =
+      isProposalJustificationForLeadingRound cfg s rcMsg rcs v r := rfl
+
+theorem findJustified_withC (cfg : Cfg) (s : State) (P Pr C RC : Container) (t : Msg) (rcs : List Msg) (l : List Msg) :
+    findJustified cfg (withC s P Pr C RC) t rcs l = findJustified cfg s t rcs l := by
+  induction l with
+  | nil => rfl
+  | cons m rest ih =>
+    unfold findJustified
+    have e : (withC s P Pr C RC).startValue = s.startValue := rfl
+    simp only [isPJFLR_withC, ih, e]
+
+theorem hasReceivedProposalJustification_sim (cfg : Cfg) {s s' : State} (h : Sim s s') (t : Msg) (ht : s.round ≤ t.round) :
+    hasReceivedProposalJustification cfg s' t = hasReceivedProposalJustification cfg s t := by
+  obtain ⟨P, Pr, C, RC, rfl, hP, hPr, hC, hRC⟩ := h
+  have hfr : forRound RC t.round = forRound s.roundChange t.round := agree_forRound hRC ht
+  unfold hasReceivedProposalJustification
+  have := findJustified_withC cfg s P Pr C RC t (forRound s.roundChange t.round) (forRound s.roundChange t.round)
+  simp only [withC] at hfr this ⊢
+  simp only [hfr, this]
+
+theorem uponChangeRoundPartialQuorum_sim (cfg : Cfg) {s s' : State} (h : Sim s s') (hwf : WF s) (newRound : Nat) (hn : s.round ≤ newRound) :
+    StepSim (uponChangeRoundPartialQuorum cfg s newRound) (uponChangeRoundPartialQuorum cfg s' newRound) := by
+  obtain ⟨P, Pr, C, RC, rfl, hP, hPr, hC, hRC⟩ := h
+  have hS : Sim { s with round := newRound, accepted := none } { withC s P Pr C RC with round := newRound, accepted := none } :=
+    ⟨P, Pr, C, RC, rfl, hP.mono hn, hPr, hC.mono hn, hRC.mono hn⟩
+  have hw : WF { s with round := newRound, accepted := none } := Nat.le_trans hwf hn
+  have hrc := createRoundChange_sim cfg hS newRound
+  unfold uponChangeRoundPartialQuorum
+  simp only [withC] at hrc ⊢
+  rw [hrc]
+  exact sendOr_sim cfg hS hw _ _ _
+
+theorem uponRoundChange_sim (cfg : Cfg) {s s' : State} (m : Msg) (h : Sim s s') (hm : s.round ≤ m.round) (hwf : WF s) :
+    StepSim (uponRoundChange cfg s m) (uponRoundChange cfg s' m) := by
+  obtain ⟨P, Pr, C, RC, rfl, hP, hPr, hC, hRC⟩ := h
+  have ha := agree_addFirst hRC m hm
+  have hfr : forRound RC m.round = forRound s.roundChange m.round := agree_forRound hRC hm
+  unfold uponRoundChange
+  rcases hx : addFirst (withC s P Pr C RC).roundChange m with ⟨R1, b⟩
+  rcases hy : addFirst s.roundChange m with ⟨R0, b0⟩
+  have hx' : addFirst RC m = (R1, b) := hx
+  rw [hx', hy] at ha
+  obtain ⟨hb, hag⟩ := ha
+  simp only at hb hag
+  subst hb
+  have hS1 : Sim { s with roundChange := R0 } { withC s P Pr C RC with roundChange := R1 } := ⟨P, Pr, C, R1, rfl, hP, hPr, hC, hag⟩
+  have hw1 : WF { s with roundChange := R0 } := hwf
+  have hj := hasReceivedProposalJustification_sim cfg hS1 m hm
+  have hfr1 : forRound R1 s.round = forRound R0 s.round := agree_forRound hag (Nat.le_refl _)
+  have hab : R1.filter (fun x => Nat.blt s.round x.round) = R0.filter (fun x => Nat.blt s.round x.round) :=
+    agree_above hag (Nat.le_succ _)
+  simp only [withC] at hj hfr ⊢
+  simp only [hfr]
+  cases b
+  · simp only [Bool.not_false, if_true]
+    exact okStep_sim ⟨P, Pr, C, RC, rfl, hP, hPr, hC, hRC⟩ hwf []
+  · simp only [Bool.not_true, Bool.false_eq_true, if_false]
+    split
+    · exact okStep_sim hS1 hw1 []
+    · simp only [hj, hfr1, hab]
+      cases hasReceivedProposalJustification cfg { s with roundChange := R0 } m with
+      | error f => exact failStep_sim hS1 hw1 [] f
+      | ok r =>
+        cases r with
+        | some jv =>
+          rcases jv with ⟨justified, value⟩
+          simp only
+          have hcp : createProposal cfg { withC s P Pr C RC with roundChange := R1 } value (forRound R0 s.round) justified.rcJust =
+              createProposal cfg { s with roundChange := R0 } value (forRound R0 s.round) justified.rcJust := rfl
+          simp only [withC] at hcp
+          rw [hcp]
+          exact sendOr_sim cfg hS1 hw1 _ _ _
+        | none =>
+          simp only
+          split
+          · split
+            · exact okStep_sim hS1 hw1 []
+            · rename_i hlt
+              exact uponChangeRoundPartialQuorum_sim cfg hS1 hw1 _ (by simp only at hlt ⊢; omega)
+          · exact okStep_sim hS1 hw1 []
+
+theorem baseMsgValidation_withC (cfg : Cfg) (s : State) (P Pr C RC : Container) (m : Msg) :
+    baseMsgValidation cfg (withC s P Pr C RC) m = baseMsgValidation cfg s m := rfl
+
+/-- an accepted message is never for a past round -/
+theorem baseMsgValidation_round (cfg : Cfg) (s : State) (m : Msg) (u : Unit)
+    (h : wrap Atom.invalidSigned (baseMsgValidation cfg s m) = .ok u) : s.round ≤ m.round := by
+  apply Decidable.byContradiction
+  intro hlt
+  have hd : decide (m.round < s.round) = true := by simp; omega
+  unfold baseMsgValidation at h
+  cases hv : wrap Atom.invalidSigned (signedValidate m.toBase) with
+  | error e =>
+    simp only [hv, bind, Except.bind] at h
+    cases e <;> simp [wrap] at h
+  | ok v =>
+    simp only [hv, bind, Except.bind, hd, rejectIf, fail, if_true] at h
+    simp [wrap] at h
+
+theorem processMsg_sim (cfg : Cfg) {s s' : State} (m : Msg) (h : Sim s s') (hwf : WF s) :
+    StepSim (processMsg cfg s m) (processMsg cfg s' m) := by
+  have hcp : canProcess cfg s' = canProcess cfg s := by
+    obtain ⟨P, Pr, C, RC, rfl, _⟩ := h; rfl
+  have hv : baseMsgValidation cfg s' m = baseMsgValidation cfg s m := by
+    obtain ⟨P, Pr, C, RC, rfl, _⟩ := h; rfl
+  unfold processMsg
+  rw [hcp, hv]
+  split
+  · exact ⟨rfl, rfl, h, hwf⟩
+  · cases hval : wrap Atom.invalidSigned (baseMsgValidation cfg s m) with
+    | error f => exact failStep_sim h hwf [] f
+    | ok u =>
+      have hm := baseMsgValidation_round cfg s m u hval
+      simp only
+      split
+      · exact uponProposal_sim cfg m h hm hwf
+      · split
+        · exact uponPrepare_sim cfg m h hm hwf
+        · split
+          · exact uponCommit_sim cfg m h hm hwf
+          · split
+            · exact uponRoundChange_sim cfg m h hm hwf
+            · exact ⟨rfl, rfl, h, hwf⟩
+
+theorem Sim.refl (s : State) : Sim s s := ⟨s.propose, s.prepare, s.commit, s.roundChange, rfl, rfl, rfl, rfl, rfl⟩
+
+/-- compacting the right-hand state of an undecided pair keeps the relation -/
+theorem compact_sim {s s' : State} (h : Sim s s') (hd : s.decided = false) : Sim s (compact s') := by
+  obtain ⟨P, Pr, C, RC, rfl, hP, hPr, hC, hRC⟩ := h
+  refine ⟨compactContainerEdit P s.round false, compactContainerEdit Pr s.lastPreparedRound false,
+    compactContainerEdit C s.round false, compactContainerEdit RC s.round false, ?_, ?_, ?_, ?_, ?_⟩
+  · simp only [compact, compactWith, withC, hd]
+  · exact hP.trans (agreeFrom_compactContainerEdit P s.round)
+  · exact hPr.trans (agreeFrom_compactContainerEdit Pr s.lastPreparedRound)
+  · exact hC.trans (agreeFrom_compactContainerEdit C s.round)
+  · exact hRC.trans (agreeFrom_compactContainerEdit RC s.round)
+
+theorem Sim.decided {s s' : State} (h : Sim s s') : s'.decided = s.decided := by
+  obtain ⟨P, Pr, C, RC, rfl, _⟩ := h; rfl
+
+/-- ops of an instance run in which compaction is only ever applied to undecided instances, and `Start` has happened before -/
+def IOp.allowed : IOp → Bool
+  | .deliver _ => true
+  | .timeout => true
+  | .stop => true
+  | .compactUndecided => true
+  | .compact => false
+  | .start _ _ => false
+
+theorem runI_sim (cfg : Cfg) (ops : List IOp) (hops : ∀ op ∈ ops, op.allowed = true) :
+    ∀ s s' : State, Sim s s' → WF s → (runI cfg s' ops).2 = (runI cfg s (ops.filter (fun op => !op.isCompaction))).2 := by
+  induction ops with
+  | nil => intro s s' _ _; rfl
+  | cons op rest ih =>
+    intro s s' h hwf
+    have hrest : ∀ op ∈ rest, op.allowed = true := fun o ho => hops o (List.mem_cons_of_mem _ ho)
+    have hop := hops op (List.mem_cons_self)
+    cases op with
+    | start v hh => simp [IOp.allowed] at hop
+    | compact => simp [IOp.allowed] at hop
+    | compactUndecided =>
+      have hs'' : Sim s (if s'.decided then s' else compact s') := by
+        by_cases hd : s'.decided = true
+        · simp [hd]; exact h
+        · have hd' : s'.decided = false := by simpa using hd
+          simp only [hd', Bool.false_eq_true, if_false]
+          exact compact_sim h (by rw [← h.decided]; exact hd')
+      have := ih hrest s _ hs'' hwf
+      simp only [runI, stepI, IOp.isCompaction, List.filter, Bool.not_true]
+      exact this
+    | deliver m =>
+      obtain ⟨ho, hr, hS, hw⟩ := processMsg_sim cfg m h hwf
+      have := ih hrest _ _ hS hw
+      simp only [runI, stepI, IOp.isCompaction, List.filter, Bool.not_false, ho, hr, this]
+    | timeout =>
+      obtain ⟨ho, hr, hS, hw⟩ := uponRoundTimeout_sim cfg h hwf
+      have := ih hrest _ _ hS hw
+      simp only [runI, stepI, IOp.isCompaction, List.filter, Bool.not_false, ho, hr, this]
+    | stop =>
+      obtain ⟨P, Pr, C, RC, rfl, hP, hPr, hC, hRC⟩ := h
+      have hS : Sim (forceStop s) (forceStop (withC s P Pr C RC)) := ⟨P, Pr, C, RC, rfl, hP, hPr, hC, hRC⟩
+      have := ih hrest _ _ hS hwf
+      simp only [runI, stepI, IOp.isCompaction, List.filter, Bool.not_false, this]
+      rfl
 
 end Ssv.Qbft
